@@ -2,7 +2,7 @@ SPECIFICATION Spec
 CONSTANTS
   MaxRoots = 3
   MaxFiles = 3
-  FileFaults = {"E", "P", "N", "M", "A", "S", "W", "C", "R", "Z", "T"}
+  FileFaults = {"E", "P", "N", "M", "A", "S", "W", "C", "R", "Z", "T", "G"}
   RootFaults = {"badtoml", "vermismatch", "missing", "dir"}
   Combos <- MCCombos
   GenMode = "companion"
